@@ -29,12 +29,15 @@ GRIDS = {
     'q15': dict(T=8, freq='15min', tz=None),
     'short': dict(T=2, freq='h', tz=None),
     'dunit': dict(T=4, freq='h', tz=None, unit='d'),
+    'hshift': dict(T=4, freq='h', tz=None, shift_hours=1),   # same number of steps, one hour later: assets with fixed dates sit at other steps
     'day2': dict(T=4, freq='h', tz=None, shift_days=1),      # same instants, main time unit 'd' (rates per day, durations in days)
 }
-OPS = ['h', 'cet', 'utc', 'q15', 'short', 'dunit', 'same', 'split', 'costs', 'frame', 'wrapped']
+OPS = ['h', 'cet', 'utc', 'q15', 'short', 'dunit', 'same', 'split', 'costs', 'frame', 'wrapped', 'hshift']
 FINALS = ['h', 'cet', 'q15', 'short', 'utc', 'dunit', 'frame_day2']
 # the documented call form "time grid set before, not given to the set-up call": portfolio (also with a fixed time window) and every asset on its own
 NOGRID_FINALS = ['h_nogrid', 'h_nogrid_assets']
+# further final calls: a split set-up, and cost samples from a sample dictionary that the user refills between calls
+OTHER_FINALS = ['h_split', 'h_costsample']
 PORTFOLIOS = ['dicts', 'wrappers', 'orderbook', 'classes', 'linked']
 NAIVE_ONLY = {'orderbook', 'classes', 'linked'}      # order dates are naive: EAO compares them with the grid points as they are
 
@@ -54,6 +57,8 @@ def cases(tier, seed):
                 groups.setdefault(h[0] if h else '-', []).append(list(h))
             for g, lst in sorted(groups.items()):
                 out.append(('%s_final_%s_first_%s' % (pfk, fin, g), dict(pf=pfk, final=fin, histories=lst)))
+        for fin in OTHER_FINALS:
+            out.append(('%s_final_%s' % (pfk, fin), dict(pf=pfk, final=fin, histories=[[], ['same'], ['costs']] + ([['split'], ['h', 'same']] if tier == 'thorough' else []))))
         for fin in NOGRID_FINALS:
             out.append(('%s_final_%s' % (pfk, fin), dict(pf=pfk, final=fin, histories=[[], ['q15']] + ([['wrapped']] if tier == 'thorough' else []))))
     return out
@@ -70,7 +75,7 @@ def mk_grid(key):
     g = GRIDS[key]
     eao = lift.import_eao()
     step = pd.Timedelta(g['freq']) if any(ch.isdigit() for ch in g['freq']) else pd.Timedelta(1, g['freq'])
-    t0_ = pd.Timestamp(shapes.T0) + pd.Timedelta(days=g.get('shift_days', 0))
+    t0_ = pd.Timestamp(shapes.T0) + pd.Timedelta(days=g.get('shift_days', 0)) + pd.Timedelta(hours=g.get('shift_hours', 0))
     return eao.assets.Timegrid(t0_.to_pydatetime(), (t0_ + g['T'] * step).to_pydatetime(), freq=g['freq'], timezone=g['tz'], main_time_unit=g.get('unit', 'h'))
 
 
@@ -89,7 +94,7 @@ def mk_portfolio(D, kind):
                                  max_cap={'start': [h(0), h(2)], 'values': [D('ct_max0', lo=0), D('ct_max1', lo=0)]},
                                  extra_costs={'start': [h(0)], 'end': [h(2)], 'values': [D('ct_ec', lo=0)]},
                                  min_take={'start': [h(0)], 'end': [h(3)], 'values': [D('ct_mintake', hi=0)]},
-                                 max_take={'start': [h(1)], 'end': [h(6)], 'values': [D('ct_maxtake', lo=0)]})
+                                 max_take={'start': [h(1)], 'end': [h(6)], 'values': np.array([D('ct_maxtake', lo=0)], dtype=object if D.symbolic else float)})      # quantities as numpy array; the period reaches beyond the horizon (prorated)
         co = shapes.mk_market(D, 'co', nA, 0, 'q', freq='h', wacc=D('wacc_co', lo=0))
         late = shapes.mk_market(D, 'late', nB, 0, 'q', wacc=D('wacc_late', lo=0))
         late.start, late.end = h(1), h(3)
@@ -106,7 +111,7 @@ def mk_portfolio(D, kind):
         mc = eao.assets.MultiCommodityContract(name='mc', nodes=[nA, nB], price='q', min_cap=D('mc_min', hi=0), max_cap=D('mc_max', lo=0),
                                                factors_commodities=[1.0, 0.5], start=h(0), end=h(3), wacc=D('wacc_mc', lo=0))
         # take quantities as numpy arrays (as the docstring describes), one array object shared by min_take and max_take bounds of the periods
-        xt_vals = np.array([D('xt_take', lo=0), D('xt_take2', lo=0)], dtype=object)
+        xt_vals = np.array([D('xt_take', lo=0), D('xt_take2', lo=0)], dtype=object if D.symbolic else float)
         xt = shapes.mk_transport(D, 'xt', nA, nB, eff=0.5, cls=eao.assets.ExtendedTransport,
                                  max_take={'start': np.array([h(0), h(2)]), 'end': np.array([h(2), h(4)]), 'values': xt_vals},
                                  min_take={'start': [h(1)], 'end': [h(3)], 'values': np.array([0.0])})
@@ -134,7 +139,8 @@ def mk_portfolio(D, kind):
         return eao.portfolio.Portfolio([m, late, ob])
     if kind == 'wrappers':
         base = shapes.mk_storage(D, 'base', nA, eff=0.75)
-        sc = eao.assets.ScaledAsset(name='sc', base_asset=base, min_scale=0., max_scale=D('smax', lo=0), norm_scale=2.0, fix_costs=D('fixc', lo=0))
+        sc = eao.assets.ScaledAsset(name='sc', base_asset=base, min_scale=0., max_scale=D('smax', lo=0), norm_scale=2.0, fix_costs=D('fixc', lo=0),
+                                    start=h(1), end=h(3))       # fix costs count over the scaled asset's own window
         ist = shapes.mk_storage(D, 'ist', nB, eff=None, costs=False)
         ist.start, ist.end = h(0), h(3)
         itr = shapes.mk_transport(D, 'itr', nB, nA, eff=0.5)
@@ -180,17 +186,19 @@ def apply_op(pf, op, D, grids):
         names = []
         for a in pf.assets:
             names += [n for n in a.node_names if n not in names]
-        w = eao.portfolio.StructuredAsset(name='tmp_wrapper', nodes=[eao.assets.Node(n) for n in names], portfolio=eao.portfolio.Portfolio(list(pf.assets)),
-                                          start=h_(1), end=h_(2))
+        w = eao.portfolio.StructuredAsset(name='tmp_wrapper', nodes=[eao.assets.Node(n) for n in names], portfolio=pf, start=h_(1), end=h_(2))     # the very Portfolio object
         return w.setup_optim_problem(mk_prices(D, 'h'), g)
     if op == 'costs':
         g = grids.get('h') or mk_grid('h')
         grids['h'] = g
-        return pf.create_cost_samples([mk_prices(D, 'h')], g)
+        # one pre-allocated sample dictionary that the user refills before every call
+        smp = grids.setdefault('sample', {})
+        smp.update(mk_prices(D, 'h'))
+        return pf.create_cost_samples([smp], g)
     raise KeyError(op)
 
 
-def scenario(D, pfk, history, final):
+def scenario(D, pfk, history, final, isolate=False):
     """returns (problem after the history on shared objects, problem of a fresh portfolio for the final call alone)"""
     pf = mk_portfolio(D, pfk)
     grids = {}
@@ -199,6 +207,8 @@ def scenario(D, pfk, history, final):
     # final call: on the grid object an earlier call may have used, with every cache poisoned
     if final in NOGRID_FINALS:
         return scenario_nogrid(D, pfk, pf, grids, final)
+    if final in OTHER_FINALS:
+        return scenario_other(D, pfk, pf, grids, final)
     fkey = 'day2' if final == 'frame_day2' else final
     g = grids.get(fkey) or mk_grid(fkey)
     if final == 'frame_day2':
@@ -211,6 +221,10 @@ def scenario(D, pfk, history, final):
         g.restricted = Poison()
     if hasattr(g, 'discount_factors'):
         g.discount_factors = Poison()
+    if isolate:
+        # the fresh objects come from a second instance of the repository's modules: nothing the history left on classes or in module globals
+        # can reach them (the calls above ran on the first instance)
+        lift.fresh_import()
     fresh = mk_portfolio(D, pfk)
     try:
         gf = mk_grid(fkey)
@@ -288,6 +302,35 @@ def scenario_nogrid(D, pfk, pf, grids, final):
     return op_hist, op_fresh
 
 
+class CostOnly:
+    """a cost vector as a problem-like object for compare()"""
+
+    def __init__(self, c):
+        self.c = np.asarray(c, dtype=object)
+        self.l = np.zeros(len(self.c), dtype=object)
+        self.u = np.zeros(len(self.c), dtype=object)
+        self.A = self.b = self.cType = self.mapping = self.map_nodal_restr = None
+
+
+def scenario_other(D, pfk, pf, grids, final):
+    g = grids.get('h') or mk_grid('h')
+    fresh = mk_portfolio(D, pfk)
+    gf = mk_grid('h')
+    if final == 'h_split':
+        pr = mk_prices(D, 'h')
+        a = pf.setup_split_optim_problem(pd.DataFrame(pr), g, interval_size='2h')
+        b = fresh.setup_split_optim_problem(pd.DataFrame(pr), gf, interval_size='2h')
+        return Stacked(list(a.ops)), Stacked(list(b.ops))
+    # cost samples: the sample dictionary object of an earlier call, refilled with other prices
+    T = GRIDS['h']['T']
+    new_prices = {'p': D.arr('p_resample_', T), 'q': D.arr('q_resample_', T)}
+    smp = grids.setdefault('sample', {})
+    smp.update(new_prices)
+    a = pf.create_cost_samples([smp], g)[0]
+    b = fresh.create_cost_samples([dict(new_prices)], gf)[0]
+    return CostOnly(a), CostOnly(b)
+
+
 # ------------------------------------------------------------------------------------------------ run
 def compare(rec, name, base, a, b):
     """term-by-term equality of two problems; returns list of (label, goal) not syntactically identical"""
@@ -321,14 +364,14 @@ def compare(rec, name, base, a, b):
     return goals
 
 
-def run_case(case_id, tier, seed, pf, final, histories):
+def run_case(case_id, tier, seed, pf, final, histories, isolate=False):
     rec = lpsem.Rec(PROP, case_id)
     validated = False
     for hi, hist in enumerate(histories):
         H = 'h[%s]' % ','.join(hist)
 
         def build(D):
-            return scenario(D, pf, hist, final)
+            return scenario(D, pf, hist, final, isolate)
         res = lift.explore_build(build, level='A')
         rec.paths += len(res)
         for pi, (path, D) in enumerate(res):
@@ -369,7 +412,7 @@ def run_case(case_id, tier, seed, pf, final, histories):
 def observe(case, kwargs, env, rq):
     D = lift.Domain(theta=env)
     hist = rq.get('info', {}).get('history', rq.get('extra', {}).get('history', []))
-    a, b = scenario(D, kwargs['pf'], hist, kwargs['final'])
+    a, b = scenario(D, kwargs['pf'], hist, kwargs['final'], kwargs.get('isolate', False))
     if a is None:
         return dict(hist='rejected', fresh='rejected')
     o = dict(hist=obs.problem_obs(a))
